@@ -465,7 +465,7 @@ func hangLimit(tier string) time.Duration {
 		}
 	}
 	if tier == "thorough" {
-		return 600 * time.Second
+		return 1800 * time.Second
 	}
 	return 300 * time.Second
 }
